@@ -15,7 +15,7 @@ RULE = ('exhaustive boolean space role(server, client) x marker(own, other role\
         'instantiated with database names of each shape (quick: random matching names; thorough: every matching database name in every combination class, plus unknown names of the same shapes); '
         'oracle = 10-line model of the published rule over (flagged set, advisory names, additions recommended); a case is non-trivial when the audit completed and the flagged set was compared; '
         'distinct = distinct (combination, instantiation, rendering)')
-REQUIRED = {'openssh_2048_group_exchange_runs': 8, 'cross_category_cases': 10, 'multi_target_blocks': 8, 'audits_completed': 100, 'flagged_sets_compared': 100, 'expected_exposed': 20, 'expected_advisory': 20, 'client_role': 20}
+REQUIRED = {'runs_with_rate_check': 4, 'openssh_2048_group_exchange_runs': 8, 'cross_category_cases': 10, 'multi_target_blocks': 8, 'audits_completed': 100, 'flagged_sets_compared': 100, 'expected_exposed': 20, 'expected_advisory': 20, 'client_role': 20}
 ASSUMPTIONS = ['with different lists per direction the peer\'s own sending direction decides (client-to-server lists of a client, server-to-client lists of a server); the report can only show warnings on the names it displays (server-to-client lists)', 'shapes are the published ones: prefix chacha20-poly1305; suffixes -cbc, -cbc@openssh.org, -cbc@ssh.com, rijndael-cbc@lysator.liu.se; suffix -etm@openssh.com',
                '"carries the Terrapin warning" = a warning- or failure-level note naming CVE-2023-48795 (the strict-kex pseudo algorithm\'s informational text is not a warning)']
 MANIFEST = {
@@ -65,6 +65,10 @@ def cases(tier, seed):
         for nch, ncb, net in ((0, 0, 0), (1, 0, 0), (0, 1, 1), (1, 2, 2)):
             for rnd in ('text', 'json'):
                 cs.append({'kind': 'combo', 'role': 'server', 'marker': marker, 'cha': rng.sample(cha, nch), 'cbc': rng.sample(cbc, ncb), 'etm': rng.sample(etm, net), 'render': rnd, 'seed': rng.randrange(1 << 30), 'gex2048': True})
+    # the connection-rate check runs as well (everything else here skips it): its note lands in the same list as the strict-kex advisory
+    for marker in ('own', 'none'):
+        for rnd in ('text', 'json'):
+            cs.append({'kind': 'combo', 'role': 'server', 'marker': marker, 'cha': rng.sample(cha, 1), 'cbc': rng.sample(cbc, 1), 'etm': rng.sample(etm, 1), 'render': rnd, 'seed': rng.randrange(1 << 30), 'rate': True})
     # asymmetric direction lists: the peer's own sending direction decides (client-to-server lists for clients, server-to-client lists for servers)
     for role, marker in itertools.product(['server', 'client'], ['own', 'none']):
         for pat in ('etm_cs_only', 'etm_sc_only', 'cbc_cs_only', 'cbc_sc_only', 'cha_cs_only', 'cha_sc_only'):
@@ -165,6 +169,9 @@ def run_case(c):
     rng.shuffle(mac)
     banner = 'SSH-2.0-OpenSSH_9.%d' % rng.randint(0, 9)
     script = {'banner': banner, 'kex': audit.sym_kex(kex, ['ssh-ed25519'], enc, mac), 'hostkeys': {'ssh-ed25519': {'type': 'ed25519'}}, 'gex': None}
+    if c.get('rate'):
+        kex = kex + ['diffie-hellman-group16-sha512']
+        script['kex'] = audit.sym_kex(kex, ['ssh-ed25519'], enc, mac)
     if c.get('gex2048'):
         kex = [x for x in kex if 'group-exchange' not in x] + ['diffie-hellman-group-exchange-sha256']
         script['kex'] = audit.sym_kex(kex, ['ssh-ed25519'], enc, mac)
@@ -195,6 +202,8 @@ def run_case(c):
         r, p = audit.audit_client(script, args)
         if p.count('connected') == 0:
             return {'verdict': 'inconclusive', 'why': 'client peer could not connect'}
+    elif c.get('rate'):
+        r, p = audit.audit_server(script, args, base=[], monitors=['calls'])
     else:
         r, p = audit.audit_server(script, args)
     marker_present = c['marker'] in ('own', 'both')
@@ -205,6 +214,8 @@ def run_case(c):
         V = asym_V & (set(enc) | set(mac))          # warnings can only be seen on names the report displays
     viol = []
     counters = {'client_role': 1 if client else 0}
+    if c.get('rate') and any(e['k'] == 'rate-test-enter' for e in (r.monitor or [])):
+        counters['runs_with_rate_check'] = 1
     if c.get('gex2048') and p.count('gex-request') > 0:
         counters['openssh_2048_group_exchange_runs'] = 1
     if r.status not in (0, 2, 3):
